@@ -73,6 +73,81 @@ theorem local_names_untouched (order dummyFor builtins : List String) (t : Space
     shouldReplace order dummyFor builtins t .localOrFree n = false ∧
     shouldReplace order dummyFor builtins t .absent n = false := ⟨rfl, rfl⟩
 
+/-! ### which scope decides: inlined comprehensions (Python >= 3.12) -/
+
+/-- **The climb computes Python's scoping.**  For every chain of scopes around an occurrence (innermost
+first; any mixture of inlined comprehensions, generator expressions, lambdas, nested functions, any
+names bound at any level) that ends in a scope with a symbol table - the formula's own function -, the
+scope look-up of `should_replace` classifies the name exactly as Python does: local or free if some scope
+around the occurrence binds it, global otherwise. -/
+theorem climb_is_python_scoping (n : String) (ss : List PyScope) (m : PyScope) (hm : m.inlined = false) :
+    classify n (view (ss ++ [m])) = pyKind n (ss ++ [m]) :=
+  classify_view n ss m hm
+
+/-- **A name means the same at every occurrence.**  For every table of built-ins, every space, every
+chain of scopes as above and every name: after the rewriting the occurrence is the variable of an
+enclosing scope where Python binds it in the formula, and otherwise resolves to the member of the space /
+the built-in / nothing exactly as modelx's namespace does. -/
+theorem occurrence_resolves_same (builtins : List String) (t : SpaceNames) (n : String)
+    (ss : List PyScope) (m : PyScope) (hm : m.inlined = false) :
+    exportedMeaning Generated.exportReplaceOrder Generated.exportDummyFor builtins t (ss ++ [m]) n =
+      mxMeaning builtins t (ss ++ [m]) n := by
+  simp only [exportedMeaning, mxMeaning, shouldReplaceAt, classify_view n ss m hm, pyKind]
+  cases hb : pyBound n (ss ++ [m]) with
+  | true => simp [shouldReplace]
+  | false =>
+    simp only [Bool.false_eq_true, if_false, shouldReplace_generated, topNames_generated, mxResolve]
+    cases hmem : t.isMember n <;> cases hbi : builtins.contains n <;> simp
+
+/-- Asking only the INNERMOST comprehension for its own variables (seeded change C15-mutD) is not
+Python's rule: in `[[n * j for j in range(3)] for n in range(n)]` the `n` of the inner element is the
+outer loop variable, but the nearest table (the function's, where `n` is also read as a global) calls
+it global. -/
+theorem innermost_only_fails :
+    ¬ ∀ (n : String) (ss : List PyScope) (m : PyScope), m.inlined = false →
+      classifyInnermostOnly n (view (ss ++ [m])) = pyKind n (ss ++ [m]) := by
+  intro h
+  have := h "n" [{ binds := ["j"], inlined := true }, { binds := ["n"], inlined := true }]
+    { binds := [] } rfl
+  revert this
+  decide
+
+/-- the two rules agree when the name occurs directly in the comprehension that binds it, or in no
+inlined comprehension at all -/
+theorem innermost_only_agrees_one_level (n : String) (b : List String) (ss : List PyScope) (m : PyScope)
+    (hm : m.inlined = false) (hs : ∀ s ∈ ss, s.inlined = false) :
+    classifyInnermostOnly n (view ({ binds := b, inlined := true } :: ss ++ [m])) =
+      classify n (view ({ binds := b, inlined := true } :: ss ++ [m])) := by
+  cases ss with
+  | nil => simp [view, hm, classifyInnermostOnly, classify, skipToTable]
+  | cons s rest =>
+    have h1 : s.inlined = false := hs s (List.mem_cons_self ..)
+    simp [view, h1, classifyInnermostOnly, classify, skipToTable]
+
+/-- `[[n * j for j in range(3)] for n in range(n)]` in a space with the reference `n`: the `n` of the
+first iterable is the reference, the `n` of the inner element is the loop variable; `j` and `n` inside
+are never rewritten, a name bound nowhere (`k`) is, a built-in (`range`) is not. -/
+example :
+    let t : SpaceNames := { refs := ["n", "k"] }
+    let fn : PyScope := { binds := [] }
+    let outer : PyScope := { binds := ["n"], inlined := true }
+    let inner : PyScope := { binds := ["j"], inlined := true }
+    let b := ["range", "sum"]
+    (exportedMeaning Generated.exportReplaceOrder Generated.exportDummyFor b t [fn] "n",
+     exportedMeaning Generated.exportReplaceOrder Generated.exportDummyFor b t [inner, outer, fn] "n",
+     exportedMeaning Generated.exportReplaceOrder Generated.exportDummyFor b t [inner, outer, fn] "j",
+     exportedMeaning Generated.exportReplaceOrder Generated.exportDummyFor b t [inner, outer, fn] "k",
+     exportedMeaning Generated.exportReplaceOrder Generated.exportDummyFor b t [inner, outer, fn] "range",
+     classifyInnermostOnly "n" (view [inner, outer, fn]))
+    = (.target .member, .localVar, .localVar, .target .member, .target .builtin, .global) := by decide
+
+/-- a lambda inside the comprehension has a table of its own, in which the loop variable is free:
+`[(lambda q: q + n)(j) for n in range(n)]` -/
+example :
+    classify "n" (view [{ binds := ["q"] }, { binds := ["n"], inlined := true }, { binds := [] }]) = .localOrFree ∧
+    classify "k" (view [{ binds := ["q"] }, { binds := ["n"], inlined := true }, { binds := [] }]) = .global := by
+  decide
+
 /-! ## 2. arguments and references in (nested) ItemSpaces -/
 
 /-- **`self.k` in an exported (nested) ItemSpace is what modelx's namespace gives (partial).**
